@@ -1,7 +1,7 @@
 (* pins for C13: statements of the property theorems as of the time of pinning *)
 From Coq Require Import NArith List Bool.
 From Blue Require Import Mani.Model Mani.Fs Mani.ModelMani Mani.ProofsOrder Mani.ProofsFormat
-  Mani.ProofsFs Mani.ProofsCrash Mani.ProofsLts Mani.ProofsChain Mani.ProofsChainLts Mani.ProofsVerify Mani.ProofsIter Mani.Lock Mani.ProofsLock.
+  Mani.ProofsFs Mani.ProofsCrash Mani.ProofsLts Mani.ProofsChain Mani.ProofsChainLts Mani.ProofsVerify Mani.ProofsIter Mani.Lock Mani.ProofsLock Mani.ProofsCut.
 Import ListNotations.
 Open Scope N_scope.
 From Blue Require Import Mani.Props_C13.
@@ -13,6 +13,7 @@ Check C13_verify_reports_nothing : forall crc ratio c m, reach crc ratio c -> c_
 Check C13_parse_serialize : forall crc es, Forall wf_edit es -> read_mani crc (Some (ser_edits crc es)) = Ok (spec_state es).
 Check C13_iterator_roundtrip : forall crc es, Forall wf_edit es -> iter_all crc (S (length (lines (ser_edits crc es)))) (Some (lines (ser_edits crc es))) = map IEdit es.
 Check C13_truncation_prefix : forall crc es n, Forall wf_edit es -> (exists x, read_mani crc (Some (firstn n (ser_edits crc es))) = Err x /\ (x = ECorruption \/ x = EDisallowed)) \/ (exists j, (j <= length es)%nat /\ read_mani crc (Some (firstn n (ser_edits crc es))) = Ok (spec_state (firstn j es)) /\ forall k, (k <= length es)%nat -> (length (ser_edits crc (firstn k es)) <= n)%nat -> (k <= j)%nat).
+Check C13_cut_newest_file_prefix_of_applied : forall crc ratio c n, reach crc ratio c -> c_crashed c = false -> c_h c = None -> exists rolled pre tail, c_edits c = pre ++ tail /\ mdata (c_fs c) = ser_edits crc (head_of rolled pre ++ tail) /\ match m_open crc ratio (cut_file FMani n (c_fs c), []) with | Ok (m, _) => exists i, (i <= length (c_edits c))%nat /\ m_st m = spec_state (firstn i (c_edits c)) /\ forall t, (t <= length tail)%nat -> (length (ser_edits crc (head_of rolled pre ++ firstn t tail)) <= n)%nat -> (length pre + t <= i)%nat | Err x => x = ECorruption \/ x = EDisallowed | Panic => False end.
 Check C13_open_is_read : forall crc ratio s, fs_ok s -> match read_mani crc (content FMani s) with | Ok st => exists m w, m_open crc ratio (s, []) = Ok (m, w) /\ m_st m = st | Err x => m_open crc ratio (s, []) = Err x | Panic => False end.
 Check C13_apply_never_fails : forall crc ratio c m e, reach crc ratio c -> c_h c = Some m -> wf_edit e -> exists m' w, m_apply crc m e (c_fs c, []) = Ok (m', w) /\ m_st m' = apply_edit e (m_st m).
 Check C13_edit_api_exact : forall s, (check_str s = Ok s <-> wf_str s) /\ (forall c u, check_key c = Ok u <-> wf_key c) /\ wf_edit empty_edit /\ (forall e e' x, wf_edit e -> edit_add e x = Ok e' -> wf_edit e') /\ (forall e e' x, wf_edit e -> edit_rm e x = Ok e' -> wf_edit e') /\ (forall e e' c x, wf_edit e -> edit_info e c x = Ok e' -> wf_edit e').
